@@ -216,6 +216,15 @@ def run(ctx):
             if why:
                 ctx.problem('oracle', 'property fails on the implementation: ' + why, inputs=js, failing_input_found=True)
                 break
+    why = oracle_conditional_levels(ctx.rng)
+    ctx.evaluations += 4
+    ctx.count('oracle', 'conditional_levels')
+    if why:
+        ctx.problem('oracle', 'property fails on the implementation: ' + why, inputs={'suite': 'conditional_levels'}, failing_input_found=True)
+    why = oracle_metadata(ctx.rng)
+    ctx.evaluations += 2
+    if why:
+        ctx.problem('oracle', 'property fails on the implementation: ' + why, inputs={'suite': 'metadata'}, failing_input_found=True)
     for _ in range(ctx.n(2, 8)):
         why = oracle_levels(ctx.rng)
         ctx.count('oracle', 'level_ladder')
@@ -314,11 +323,88 @@ def oracle_bounds(rng, n, fo, go, ho, p, q):
     for name, (st, val) in (('primal', pv), ('dual', dv), ('dual with slacks', ds)):
         if st == 'solved' and math.isfinite(val) and math.isfinite(ub) and val > ub + 1e-4 * (1 + abs(ub)):
             return '%s value %r %s exceeds f at a feasible point (%r)' % (name, val, opts, ub)
+        if st == 'solved' and val == math.inf and math.isfinite(ub):
+            return '%s value +inf %s although the problem has a feasible point with f = %r' % (name, opts, ub)
     if pv[0] == 'solved' and dv[0] == 'solved' and math.isfinite(pv[1]) and math.isfinite(dv[1]) and pv[1] > dv[1] + 1e-4 * (1 + abs(dv[1])):
         return 'primal value %r exceeds dual value %r %s' % (pv[1], dv[1], opts)
     # slack variables only relax the dual by a bounded amount that the solver drives to zero: same value (same solver, same tolerance)
     if dv[0] == 'solved' and ds[0] == 'solved' and math.isfinite(dv[1]) and math.isfinite(ds[1]) and ds[1] > dv[1] + 1e-3 * (1 + abs(dv[1])):
         return 'dual value with slacks=True (%r) exceeds the dual value with slacks=False (%r) %s' % (ds[1], dv[1], opts)
+    return None
+
+
+def oracle_conditional_levels(rng):
+    for coeffs in ((0.8, 0.3), (rng.choice([0.8, 1.0]), rng.choice([0.3, 0.5]))):
+        why = conditional_levels_one(coeffs)
+        if why:
+            return why
+    return None
+
+
+def conditional_levels_one(coeffs):
+    """conditional relaxations (X a SigDomain from bounds) with a genuinely nonconvex explicit constraint and non-constant multipliers
+    (p = 1): the cones of the multipliers are conditional on X in both forms, so the two forms agree and both are lower bounds"""
+    import sageopt as so
+    from sageopt.relaxations import sage_sigs as ss
+    y = so.standard_sig_monomials(2)
+    a1, a2 = coeffs
+    f = a1 * y[0] ** 2 * y[1] ** -2 + a2 * y[0] ** -2 + 0.9 * y[0] ** -1 * y[1] ** 2 - 0.3 * y[0]
+    g = 1 + 0.8 * y[0] * y[1] + 0.2 * y[1] - 1.6 * y[0] ** -1
+    bnds = [2 - y[0], y[0] - 0.5, 3 - y[1], y[1] - 0.5]
+    vals = {}
+    with warnings.catch_warnings():
+        warnings.simplefilter('ignore')
+        X = ss.infer_domain(f, bnds, [])
+        for lev in ((0, 1, 0), (1, 1, 0)):
+            for form in ('primal', 'dual'):
+                try:
+                    vals[(lev, form)] = ss.sig_constrained_relaxation(f, [g], [], X, form=form, p=lev[0], q=lev[1], ell=lev[2]).solve(verbose=False)
+                except Exception as e:
+                    vals[(lev, form)] = ('error', repr(e)[:60])
+    t0, t1 = np.linspace(math.log(0.5), math.log(2), 120), np.linspace(math.log(0.5), math.log(3), 120)
+    G0, G1 = np.meshgrid(t0, t1)
+    pts = np.vstack([G0.ravel(), G1.ravel()])
+    feas = np.asarray(g(pts), dtype=float) >= 0
+    ub = float(np.min(np.asarray(f(pts), dtype=float)[feas]))
+    desc = 'f = %g y0^2/y1^2 + %g/y0^2 + 0.9 y1^2/y0 - 0.3 y0, g = 1 + 0.8 y0 y1 + 0.2 y1 - 1.6/y0 on the box [0.5,2]x[0.5,3]' % (a1, a2)
+    for (lev, form), (st, val) in vals.items():
+        if st == 'solved' and isinstance(val, float) and (val == math.inf or (math.isfinite(val) and val > ub + 1e-3 * (1 + abs(ub)))):
+            return '%s: %s value %r at level %s exceeds f at a feasible point (%r)' % (desc, form, val, lev, ub)
+    for lev in ((0, 1, 0), (1, 1, 0)):
+        a, b = vals[(lev, 'primal')], vals[(lev, 'dual')]
+        if a[0] == b[0] == 'solved' and isinstance(a[1], float) and isinstance(b[1], float) and math.isfinite(a[1]) and math.isfinite(b[1]) \
+                and abs(a[1] - b[1]) > 1e-3 * (1 + abs(a[1])):
+            return '%s: at level %s the primal value %r and the dual value %r are both finite and differ' % (desc, lev, a[1], b[1])
+    return None
+
+
+def oracle_metadata(rng):
+    """the Lagrangian recorded with the dual problem is the one make_sig_lagrangian returned (for which the identity is checked), at
+    every level ell"""
+    import sageopt as so
+    from sageopt.relaxations import sage_sigs as ss
+    y = so.standard_sig_monomials(2)
+    f = y[0] + y[1] ** 2 + y[0] ** -1
+    gts = [2 - y[0] - y[1]]
+    for ell in (0, 1):
+        captured = {}
+        orig = ss.make_sig_lagrangian
+
+        def spy(*a, **k):
+            out = orig(*a, **k)
+            captured['L'] = out[0]
+            return out
+        ss.make_sig_lagrangian = spy
+        try:
+            with warnings.catch_warnings():
+                warnings.simplefilter('ignore')
+                prob = ss.sig_constrained_dual(f, gts, [], 0, 1, ell)
+        finally:
+            ss.make_sig_lagrangian = orig
+        Lm, L0 = prob.metadata['lagrangian'], captured['L']
+        if Lm.m != L0.m or not np.array_equal(np.asarray(Lm.alpha, dtype=float), np.asarray(L0.alpha, dtype=float)):
+            return ('sig_constrained_dual(ell=%d): the recorded Lagrangian has %d terms with exponents %s; make_sig_lagrangian returned %d terms %s'
+                    % (ell, Lm.m, np.asarray(Lm.alpha).tolist(), L0.m, np.asarray(L0.alpha).tolist()))
     return None
 
 
@@ -345,9 +431,35 @@ def oracle_levels(rng):
                 except Exception as e:
                     vals[(lev, form)] = ('error', repr(e)[:60])
     desc = 'min y0+y1-%g*y0*y1 s.t. y0,y1>=0.2, y0^2+y1^2=%g' % (cc, r)
+    # the same ladder over the inferred domain X (here: the two bounds), where the multiplier cones are conditional too
+    with warnings.catch_warnings():
+        warnings.simplefilter('ignore')
+        X = ss.infer_domain(f, gts + [4.0 - y[0], 4.0 - y[1]], [])
+        g2 = [4.0 - y[0] ** 2 - y[1] ** 2 + (r - 4.0)]           # y0^2 + y1^2 <= r as an inequality
+        for lev in ((0, 1, 0), (1, 1, 0)):
+            for form in ('primal', 'dual'):
+                try:
+                    vals[(lev + ('X',), form)] = ss.sig_constrained_relaxation(f, gts + g2, [], X, form=form, p=lev[0], q=lev[1], ell=lev[2]).solve(verbose=False)
+                except Exception as e:
+                    vals[(lev + ('X',), form)] = ('error', repr(e)[:60])
+            for q_ in (2,):
+                try:
+                    vals[((0, q_, 0, 'q'), 'primal')] = ss.sig_constrained_relaxation(f, gts + g2, [], None, form='primal', p=0, q=q_, ell=0).solve(verbose=False)
+                    vals[((0, q_, 0, 'q'), 'dual')] = ss.sig_constrained_relaxation(f, gts + g2, [], None, form='dual', p=0, q=q_, ell=0).solve(verbose=False)
+                except Exception as e:
+                    pass
+    ubX = min([float(f(np.log(np.array([a_, b_])))) for a_ in np.linspace(0.2, 2.0, 37) for b_ in np.linspace(0.2, 2.0, 37) if a_ * a_ + b_ * b_ <= r] + [math.inf])
     for (lev, form), (st, val) in vals.items():
-        if st == 'solved' and isinstance(val, float) and math.isfinite(val) and val > ub + 1e-4 * (1 + abs(ub)):
-            return '%s: %s value %r at level %s exceeds f at a feasible point (%r)' % (desc, form, val, lev, ub)
+        bound = ubX if len(lev) == 4 else ub
+        if st == 'solved' and isinstance(val, float) and math.isfinite(val) and val > bound + 1e-4 * (1 + abs(bound)):
+            return '%s: %s value %r at level %s exceeds f at a feasible point (%r)' % (desc, form, val, lev, bound)
+        if st == 'solved' and val == math.inf and math.isfinite(bound):
+            return '%s: %s value +inf at level %s although the problem is feasible (f = %r at a feasible point)' % (desc, form, lev, bound)
+    for lev in [k_[0] for k_ in vals if len(k_[0]) == 4 and k_[1] == 'primal']:
+        a, b = vals[(lev, 'primal')], vals.get((lev, 'dual'), ('none', 0))
+        if a[0] == b[0] == 'solved' and isinstance(a[1], float) and isinstance(b[1], float) and math.isfinite(a[1]) and math.isfinite(b[1]) \
+                and abs(a[1] - b[1]) > 1e-3 * (1 + abs(a[1])):
+            return '%s (inequality version over X / q-fold): at level %s the primal value %r and the dual value %r differ' % (desc, lev, a[1], b[1])
     for lev in ((0, 1, 0), (0, 1, 1), (1, 1, 0), (1, 1, 1)):
         a, b = vals[(lev, 'primal')], vals[(lev, 'dual')]
         if a[0] == b[0] == 'solved' and isinstance(a[1], float) and isinstance(b[1], float) and math.isfinite(a[1]):
